@@ -31,7 +31,12 @@ fi
 W=$(mktemp -d /var/tmp/verif-benign-XXXXXX)
 trap 'git -C /repo worktree remove --force "$W/tree" >/dev/null 2>&1; rm -rf "$W"' EXIT
 git -C /repo worktree add -q --detach "$W/tree" HEAD || exit 2
-git -C "$W/tree" apply "$PATCH" || { echo "patch does not apply"; exit 2; }
+if ! git -C "$W/tree" apply "$PATCH" 2>/dev/null; then
+	# (written against an earlier commit, before a later repair touched the same lines)
+	[ -n "${VERIF_BASE_FALLBACK:-}" ] || { echo "patch does not apply"; exit 2; }
+	git -C "$W/tree" checkout -q --detach "$VERIF_BASE_FALLBACK" && git -C "$W/tree" apply "$PATCH" || { echo "patch does not apply"; exit 2; }
+	echo "note: applied to $VERIF_BASE_FALLBACK, not to HEAD"
+fi
 mkdir -p "$W/ev" "$W/rp"
 bad=0
 for id in $ids; do
